@@ -139,14 +139,17 @@ def build_and_check(m, res, suite, tier):
         rc, out = sh(f"cargo test --workspace --no-fail-fast --offline --target-dir {ROOT}/target-test", cwd=WT)
         failed = re.findall(r"^test (\S+) \.\.\. FAILED", out, re.M)
         res["suite"] = "pass" if rc == 0 else "FAIL: " + ",".join(sorted(set(failed)))[:300]
-    rc, out = sh(f"cargo build --release --offline --target-dir {ROOT}/target-harness", cwd=VROOT + "/harness")
-    if rc != 0:
-        res["status"] = "HARNESS DOES NOT COMPILE"; res["log"] = out[-600:]
-        return res
     res["checks"] = {}
     for p in m["props"]:
         t0 = time.time()
-        rc, out = sh(f"{ROOT}/target-harness/release/vcheck {p} {tier}", cwd=VROOT, env={"VERIF_ROOT": VROOT, "VERIF_SKA": f"{ROOT}/target-cli/release/ska", "VERIF_SEED": os.environ.get("VERIF_SEED", "1")})
+        # one binary per property: a binary that no longer compiles against the changed API gives
+        # no verdict (exit 2), exactly as run.sh reports it
+        rc, out = sh(f"cargo build --release --offline --target-dir {ROOT}/target-harness --bin {p.lower()}", cwd=VROOT + "/harness")
+        if rc != 0:
+            err = [l for l in out.splitlines() if l.startswith("error")]
+            res["checks"][p] = dict(exit=2, wall=round(time.time() - t0, 1), msg="check binary does not compile against the changed tree: " + (err[0][:200] if err else ""))
+            continue
+        rc, out = sh(f"{ROOT}/target-harness/release/{p.lower()} {p} {tier}", cwd=VROOT, env={"VERIF_ROOT": VROOT, "VERIF_SKA": f"{ROOT}/target-cli/release/ska", "VERIF_SEED": os.environ.get("VERIF_SEED", "1")})
         msg = [l for l in out.splitlines() if l.startswith("  stage=")]
         res["checks"][p] = dict(exit=rc, wall=round(time.time() - t0, 1), msg=(msg[0][:300] if msg else ""))
     res["status"] = "ok"
@@ -173,7 +176,7 @@ def main():
         r["tier"] = tier
         with open(outp, "a") as f: f.write(json.dumps(r) + "\n")
         caught = [p for p, c in r.get("checks", {}).items() if c["exit"] == 1]
-        print(f"{r['id']:38s} {r['status']:10s} suite={r.get('suite','-'):12.40s} caught_by={caught} missed_by={[p for p,c in r.get('checks',{}).items() if c['exit']!=1]}", flush=True)
+        print(f"{r['id']:38s} {r['status']:10s} suite={r.get('suite','-'):12.40s} caught_by={caught} missed_by={[p for p,c in r.get('checks',{}).items() if c['exit']==0]} no_verdict={[p for p,c in r.get('checks',{}).items() if c['exit'] not in (0,1)]}", flush=True)
     sh("git checkout -- .", cwd=WT)
     if "--keep" not in sys.argv:
         sh(f"git -C /repo worktree remove --force {WT}")
